@@ -106,13 +106,19 @@ CLAIMED["C05"] = dict(
          "between 0 and b (floor semantics, both signs of the divisor); division by zero and negative shift counts are reported; << is "
          "multiplication by 2^b, >> and _ are floor division by 2^b; & | ^ ~ are bit-for-bit the Boolean combination of the two's-complement "
          "bits of (possibly negative) operands at every bit position (via Mathlib's Int.testBit lemmas); ~x = -x-1; the regenerated operator "
-         "table has exactly the C-like precedences, left associativity and implementations. The model's own transliterated parser and "
+         "table has exactly the C-like precedences, left associativity and implementations; shift counts beyond MAX_SHIFT are reported "
+         "(absurd_shift_reports). The operator-precedence loop of parser.expression for chains of infix operators is a total function "
+         "(Model.Shunt) with three theorems: its tree reads back in order as exactly the tokens given (flatten_shunt, any precedences), "
+         "for left-associative operators it is in precedence normal form - left child binds at least as tightly, right child strictly "
+         "more (shunt_normal) - and that normal form is unique (normal_unique), so the loop returns the one C-like reading of the chain "
+         "(shunt_is_the_reading); random unbracketed chains over all 12 infix operators are parsed by the real parser and compared tree "
+         "for tree with Shunt.shunt. The model's own transliterated parser and "
          "evaluator are tied to the code by correspondence on random trees of depth <= 6 in every bracket style and literal spelling; the "
          "independent Lean Spec evaluator judges every value on the generator's tree.",
     design_ref="DESIGN.md §5 C05",
-    technique="Lean 4 theorems (omega, core Int lemmas, Mathlib Int.testBit) + parser/evaluator model vs implementation correspondence + independent Spec evaluator",
-    note=NOTE + "The parse-is-the-C-like-reading theorems (flatten/normal form of the shunting loop) are stage 2; until then precedence and "
-         "associativity are covered by the operator-table theorem plus the tree-level oracle, not by a theorem about the parser. Grammar G admits "
+    technique="Lean 4 theorems (omega, core Int lemmas, Mathlib Int.testBit; induction over the operator stack for the precedence loop) + parser/evaluator model vs implementation correspondence + independent Spec evaluator",
+    note=NOTE + "The Shunt theorems cover chains of infix operators; that the full parser (brackets, prefix operators, literals - a partial "
+         "definition in the model) feeds that loop as modelled is tied by the tree-for-tree comparison and the value oracle, not by a theorem. Grammar G admits "
          "prefix operators only where a (sub)expression starts (the implementation rejects 'a + ~b' with an error).",
 )
 
@@ -233,7 +239,8 @@ CLAIMED["C03"] = dict(
          "(move_definition); the table built from the source order is that order and a second definition is refused wherever it "
          "stands (defineAll_spec, defineAll_dup), so the whole result - refused, or the list of emitted values with their reports - "
          "is the same for every order (image_perm); values do not depend on the fuel once it suffices (fuel_mono, fuel_irrelevant, "
-         "fuel_unique); an additive chain of any length n evaluates to c + n in every order of its definitions (chain_value, "
+         "fuel_unique) and enough fuel exists for every acyclic table - ranks bounded by R, body sizes by S: fuel size e + (R+1)(S+1) gives every "
+         "expression a value, so running out of it means a definition cycle (fuel_enough, out_of_fuel_means_cycle; the driver uses that bound); an additive chain of any length n evaluates to c + n in every order of its definitions (chain_value, "
          "chain_value_any_order); definitions added later never capture a reference that already has one (eval_append_of_ok). Tie: "
          "definition tables in 5 placements against each other and against Defs.image; chains to depth 300/30 in 5 orders with the "
          "value known to the generator; one constant in 33 operand/directive positions, 4 placements, against the literal program; "
